@@ -248,6 +248,49 @@ theorem strnterminate_s_C04_bos (cfg : Cfg) (dest dmax b : Nat) (st : St) (hd : 
   rw [if_pos hbd]
   simp [handlerS, exec_bind]
 
+/-! ### the stp pair: C01 statement for ALL arguments and ANY destbos (all `dmax` cells writable, also `destbos = 0`) -/
+
+/-- stpcpy_s, ALL dest/dmax/src and ANY destbos / srcbos (`dmax` inside the known object or beyond it): C01 statement -/
+theorem stpcpy_s_frame_all (cfg : Cfg) (dest dmax src : Nat) (destbos srcbos : Bos) (st : St) (hs : Setting st)
+    (hrw : dest ≠ 0 → RW st dest dmax) :
+    ∃ r st', exec (stpcpy_s cfg dest dmax src destbos srcbos) st = .ok (r, st') ∧ Holds st st' := by
+  by_cases hb : ∀ b, destbos = some b → dmax ≤ b
+  · exact stpcpy_s_frame cfg dest dmax src destbos srcbos st hs hrw hb
+  · have : ∃ b, destbos = some b ∧ b < dmax := by
+      cases destbos with
+      | none => exact absurd (fun b h => by cases h) hb
+      | some b => exact ⟨b, rfl, by
+          apply Nat.lt_of_not_le; intro hle; exact hb (fun b' h => by cases h; exact hle)⟩
+    obtain ⟨b, rfl, hbd⟩ := this
+    by_cases hd : dest = 0
+    · subst hd
+      exact stpcpy_s_frame cfg 0 dmax src none srcbos st hs hrw (fun b h => by cases h) |> fun h => by
+        simpa [stpcpy_s] using h
+    · unfold stpcpy_s
+      rw [if_neg hd, if_neg (by omega)]
+      obtain ⟨code, st', he, hf⟩ := chkDmaxClearG_over_frame (fun c => (0, c)) cfg dest dmax b _ st hs.all (hrw hd) hbd
+      exact ⟨_, st', he, holds_of_frame hs he hf⟩
+
+theorem stpncpy_s_frame_all (cfg : Cfg) (dest dmax src slen : Nat) (destbos srcbos : Bos) (st : St) (hs : Setting st)
+    (hrw : dest ≠ 0 → RW st dest dmax) (hsb : ∀ sb, srcbos = some sb → slen ≤ sb) :
+    ∃ r st', exec (stpncpy_s cfg dest dmax src slen destbos srcbos) st = .ok (r, st') ∧ Holds st st' := by
+  by_cases hb : ∀ b, destbos = some b → dmax ≤ b
+  · exact stpncpy_s_frame cfg dest dmax src slen destbos srcbos st hs hrw hb hsb
+  · have : ∃ b, destbos = some b ∧ b < dmax := by
+      cases destbos with
+      | none => exact absurd (fun b h => by cases h) hb
+      | some b => exact ⟨b, rfl, by
+          apply Nat.lt_of_not_le; intro hle; exact hb (fun b' h => by cases h; exact hle)⟩
+    obtain ⟨b, rfl, hbd⟩ := this
+    by_cases hd : dest = 0
+    · subst hd
+      exact stpncpy_s_frame cfg 0 dmax src slen none srcbos st hs hrw (fun b h => by cases h) hsb |> fun h => by
+        simpa [stpncpy_s] using h
+    · unfold stpncpy_s
+      rw [if_neg hd, if_neg (by omega)]
+      obtain ⟨code, st', he, hf⟩ := chkDmaxClearG_over_frame (fun c => (0, c)) cfg dest dmax b _ st hs.all (hrw hd) hbd
+      exact ⟨_, st', he, holds_of_frame hs he hf⟩
+
 /-- dest = "a\0b" + 1 more cell in an object of 3 cells at 100, all mapped -/
 def oSt : St :=
   { data := fun a => if a = 100 then 97 else if a = 102 then 98 else 0
